@@ -433,6 +433,14 @@ func handlePM(raw json.RawMessage) interface{} {
 		}
 		reqWG.Wait()
 		time.Sleep(time.Duration(c.Timeout)*time.Second + 900*time.Millisecond)
+		// a late round: the workers have been idle for longer than --timeout; short requests must be served as usual
+		for j := 0; j < 1+rnd.Intn(c.Max); j++ {
+			tokn++
+			fire(fmt.Sprintf("/sleep/%d", 150+rnd.Intn(200)), fmt.Sprintf("late%d", tokn))
+			time.Sleep(time.Duration(rnd.Intn(120)) * time.Millisecond)
+		}
+		reqWG.Wait()
+		time.Sleep(time.Duration(c.Timeout)*time.Second + 900*time.Millisecond)
 	}
 	// quiet: final counts
 	finalProc := procChildren()
